@@ -1398,6 +1398,20 @@ func makeStructArshaler(t reflect.Type) *arshaler {
 						}
 					}
 				}
+				if v.IsValid() && !v.CanSet() && (dec.PeekKind() == 'n' || (v.Kind() == reflect.Pointer && v.IsNil())) {
+					// An embedded field of an unexported struct type with an explicit
+					// JSON name cannot be replaced as a whole through reflection.
+					err := newUnmarshalErrorBefore(dec, t, errNilField)
+					if !uo.Flags.Get(jsonflags.ReportErrorsWithLegacySemantics) {
+						uo.Flags = flagsOriginal
+						uo.Format = ""
+						return err
+					}
+					errUnmarshal = cmp.Or(errUnmarshal, err)
+					unmarshal = func(dec *jsontext.Decoder, _ addressableValue, _ *jsonopts.Struct) error {
+						return dec.SkipValue()
+					}
+				}
 				err = unmarshal(dec, v, uo)
 				uo.Flags = flagsOriginal
 				uo.Format = ""
